@@ -10,7 +10,7 @@ use crate::sut::*;
 use crate::worker::*;
 use serde_json::{json, Value};
 
-pub const FAULTS: [&str; 20] = [
+pub const FAULTS: [&str; 21] = [
     "absent",
     "pass",
     "slow_pass",
@@ -32,6 +32,8 @@ pub const FAULTS: [&str; 20] = [
     "spawn_isdir",
     "spawn_badinterp",
     "spawn_garbage",
+    // exit 0 after reading everything, printing white space only
+    "blank_ok",
 ];
 
 pub const WATCHDOG_S: f64 = 20.0;
